@@ -219,7 +219,8 @@ BY_ARG_FAIL = {5: "`contains_arg` says the attribute does not mention the argume
 
 
 def _classify(code, lit, cfg):
-    return "other"
+    from . import tcall
+    return "dot-without-precision" if tcall.has_dot_without_precision(lit) else "other"
 
 
 def extra_pass(tier, kf):
